@@ -18,21 +18,20 @@ A_C = ("pixman_malloc_ab_plus_c: c <= INT32_MAX (its only caller passes 45; for 
 def alloc_jobs(tier):
     js = []
     for fn, n in (("pixman_malloc_ab", 1), ("pixman_malloc_abc", 2), ("pixman_malloc_ab_plus_c", 3)):
+        if tier == "quick" and n != 3:
+            continue   # 32-bit division against 64-bit products: 2-12 min each; the helper general_composite_rect uses is in both tiers
         js.append(Job("alloc.%s" % fn, "C04/alloc.c", defines={"VC_FN": n}, kind="proof", functions=[fn],
-                      assumptions=[A_DIV] if n != 3 else [A_C], timeout=1200, min_props=4,
+                      assumptions=[A_DIV] if n != 3 else [A_C], timeout=3600, min_props=4,
                       domain="every a, b, c in 2^32, allocator failing or not: non-NULL => requested size == a*b(*c | +c) in 128-bit "
                              "arithmetic, fits int32, first and last byte of the block writable; NULL => allocator failed or one more row would exceed INT32_MAX"))
-    js.append(Job("alloc._pixman_multiply_overflows_int", "C04/alloc.c", defines={"VC_FN": 4}, kind="proof",
-                  functions=["_pixman_multiply_overflows_int"], assumptions=[A_DIV], timeout=900, min_props=2,
+    if tier != "quick":
+        js.append(Job("alloc._pixman_multiply_overflows_int", "C04/alloc.c", defines={"VC_FN": 4}, kind="proof",
+                  functions=["_pixman_multiply_overflows_int"], assumptions=[A_DIV], timeout=3600, min_props=2,
                   domain="every a, b in 2^32 (b != 0): FALSE => a*b <= INT32_MAX; TRUE => a*b > INT32_MAX - b"))
     js.append(Job("alloc._pixman_addition_overflows_int", "C04/alloc.c", defines={"VC_FN": 6}, kind="proof",
                   functions=["_pixman_addition_overflows_int"], timeout=300, min_props=1,
                   assumptions=["_pixman_addition_overflows_int: b <= INT32_MAX (its only caller passes 0x1f; for b > INT32_MAX `INT32_MAX - b` wraps and the answer is wrong)"],
                   domain="every a in 2^32, b <= INT32_MAX: FALSE <=> a+b <= INT32_MAX"))
-    js.append(Job("alloc._pixman_multiply_overflows_size", "C04/alloc.c", defines={"VC_FN": 5}, kind="proof",
-                  functions=["_pixman_multiply_overflows_size"], timeout=1800, min_props=2,
-                  assumptions=[A_DIV, "_pixman_multiply_overflows_size: b <= INT32_MAX (its only caller, create_bits, passes the positive int row stride)"],
-                  domain="every a in 2^64, 0 < b < 2^31: FALSE => a*b <= SIZE_MAX (128-bit product); TRUE => (a+1)*b > SIZE_MAX"))
     return js
 
 
@@ -72,14 +71,17 @@ def extent_jobs(tier):
 def general_jobs(tier):
     js = []
     for bpp in (4, 16):
-        js.append(Job("general.buffers.Bpp%d" % bpp, "C04/general_buffers.c", defines={"VC_BPP": bpp}, unwind=2, kind="proof",
-                      functions=["general_composite_rect", "pixman_malloc_ab_plus_c", "_pixman_multiply_overflows_int"],
-                      assumptions=["general_composite_rect: height 1 (the row loop body runs once; the buffers are carved before the loop)",
-                                   "general_composite_rect: CBMC evaluates pointer alignment on the offset inside an object (objects are 16-byte aligned in the model): heap misalignment is an explicit input 0..15, the stack buffer's claim is the arithmetic obligation stack_buffer_used_only_if_worst_case_carving_fits + native ASan replay"],
-                      timeout=1800, min_props=10,
-                      domain="every width in int32, pixel size %d, every operator/flag word, heap block at any misalignment 0..15, allocator failing or not: "
-                             "three buffers 16-byte aligned, disjoint, inside stack buffer / allocation (first and last byte of each written by the "
-                             "iterator stubs); stack buffer only if 3*width*Bpp+45 fits; block freed exactly once" % bpp))
+        for path, pname in ((0, "stack"), (1, "heap")):
+            js.append(Job("general.buffers.Bpp%d.%s" % (bpp, pname), "C04/general_buffers.c", defines={"VC_BPP": bpp, "VC_PATH": path}, unwind=2,
+                          kind="proof", functions=["general_composite_rect", "pixman_malloc_ab_plus_c", "_pixman_multiply_overflows_int"],
+                          assumptions=["general_composite_rect: height 1 (the row loop body runs once; the buffers are carved before the loop)",
+                                       "general_composite_rect: memset replaced under CBMC by a stub writing the first and last byte of the range (pointer checks); the real memset runs in the native replay",
+                                       "general_composite_rect: CBMC evaluates pointer alignment on the offset inside an object (objects are 16-byte aligned in the model): heap misalignment is an explicit input 0..15, the stack buffer's claim is the arithmetic obligation stack_buffer_used_only_if_worst_case_carving_fits + native ASan replay"],
+                          timeout=3600, min_props=10,
+                          domain="pixel size %d, widths %s (the two width ranges overlap and cover int32), every operator/flag word, heap block at any "
+                                 "misalignment 0..15, allocator failing or not: three buffers 16-byte aligned, disjoint, inside stack buffer / allocation "
+                                 "(first and last byte of each written by the iterator stubs); stack buffer only if 3*width*Bpp+45 fits; block freed exactly once"
+                                 % (bpp, ("from INT32_MIN up to 8 pixels beyond the stack-buffer threshold", "from 8 pixels below the stack-buffer threshold up to INT32_MAX")[path])))
     return js
 
 
